@@ -1,4 +1,5 @@
 import Casm.Proofs.IterModel
+import Casm.Proofs.AssembleLemmas
 /-!
 # C02 — a successful result is a genuine fixed point, never a stale guess
 
@@ -134,24 +135,6 @@ theorem iterLoop_error_nonempty (st : Static) (nodes : List AstNode) (max : Nat)
         · split at h
           · injection h with h; subst h; simp
           · exact ih _ _ _ _ h
-
-theorem frontEnd_error_nonempty (opts : Opts) (fs : SrcFiles) (roots : List (List Char)) (msgs : List String)
-    (h : frontEnd opts fs roots = .error msgs) : msgs ≠ [] := by
-  unfold frontEnd at h
-  split at h
-  · injection h with h; subst h; simp
-  · split at h
-    · injection h with h; subst h; simp
-    · simp only at h
-      split at h
-      · injection h with h; subst h; simp
-      · split at h
-        · injection h with h; subst h; simp
-        · split at h
-          · injection h with h; subst h; simp
-          · split at h
-            · rename_i hne; injection h with h; subst h; intro hc; simp [hc] at hne
-            · cases h
 
 /-- an error is never silent -/
 theorem error_has_message (opts : Opts) (fs : SrcFiles) (roots : List (List Char)) (msgs : List String)
